@@ -30,7 +30,7 @@ def ranges(tier):
     return list(range(2, 7)), [1, 2, 3]
 
 
-def build_partition(model, pcls, K, d, I, prefix=""):
+def build_partition(model, pcls, K, d, I, prefix="", node_cls=None):
     """Interpret <pcls>.__init__(domain=..., [K=K]) from source on an abstract box."""
     lo = [A.atom("%slo%d" % (prefix, k), real=True) for k in range(d)]
     hi = [A.atom("%shi%d" % (prefix, k), real=True) for k in range(d)]
@@ -46,6 +46,8 @@ def build_partition(model, pcls, K, d, I, prefix=""):
     kw = {"domain": dom}
     if K is not None:
         kw["K"] = K
+    if node_cls is not None:
+        kw["node"] = A.ClassRef(node_cls)
     I.call_function(init, part, [], kw, owner=owner.name)
     return part, dom, lo, hi
 
@@ -75,10 +77,10 @@ class Step:
     pass
 
 
-def run_steps(model, pcls, K, d, newlayer, oracle, two_step, aliased=False):
+def run_steps(model, pcls, K, d, newlayer, oracle, two_step, aliased=False, node_cls=None):
     """__init__, then make_children(parent, newlayer) [, then make_children(cousin, False)]."""
     I = A.Interp(model, oracle)
-    part, dom0, _, _ = build_partition(model, pcls, K, d, I, prefix="root_")
+    part, dom0, _, _ = build_partition(model, pcls, K, d, I, prefix="root_", node_cls=node_cls)
     init_events = list(I.events)
     init_state = dict(part.f)
     del I.events[:]
@@ -425,6 +427,50 @@ def explore_budgeted(model, pcls, K, d, newlayer, two_step, aliased=False):
         if not ts:
             raise A.Unsupported("make_children branches in more than %d ways on symbolic conditions" % HARD_BUDGET)
         ts = False
+
+
+GEOMETRY_FIELDS = {"depth", "index", "parent", "children", "domain", "c_point"}
+
+
+def fresh_state_records(model, node_cls="HOO_node"):
+    """Every cell created by a split is a distinct object with its own mutable evidence fields (reward lists, rank lists, ...):
+    one abstract make_children per partition class with an algorithm's cell class, all RNG outcomes."""
+    out = []
+    for pcls, (takesK, equal, ar) in CLASSES.items():
+        K = 3 if takesK else None
+        d = 2
+        cfg = "%s K=%s d=%d cell class %s" % (pcls, K, d, node_cls)
+        try:
+            runs = list(A.explore(lambda o: run_steps(model, pcls, K, d, True, o, False, False, node_cls)))
+        except (A.Unsupported, A.PathCrash) as ex:
+            out.append(dict(rule="R04-FRESH", ok=False, cls=pcls, cfg=cfg, construct="one abstract step of make_children", method="make_children",
+                            detail="obligation not discharged: make_children cannot be interpreted with cell class %s (%s)" % (node_cls, ex)))
+            continue
+        for oracle, res in runs:
+            st = res.steps[0]
+            if st.crash is not None:
+                out.append(dict(rule="R04-FRESH", ok=False, cls=pcls, cfg=cfg, construct="make_children raises", method="make_children",
+                                detail="raises: %s" % st.crash))
+                continue
+            ch = st.parent.f.get("children") or []
+            ids = [id(c) for c in ch]
+            ok = len(set(ids)) == len(ids)
+            shared = []
+            for a in range(len(ch)):
+                for b in range(a + 1, len(ch)):
+                    if not (isinstance(ch[a], A.Obj) and isinstance(ch[b], A.Obj)):
+                        continue
+                    for fld, v in ch[a].f.items():
+                        if fld in GEOMETRY_FIELDS:
+                            continue
+                        if isinstance(v, (list, dict)) and ch[b].f.get(fld) is v:
+                            shared.append(fld)
+            out.append(dict(rule="R04-FRESH", ok=ok and not shared, cls=pcls, cfg=cfg, construct="every new cell has its own evidence fields",
+                            method="make_children",
+                            detail="%d distinct cells, no shared list/dict field" % len(ch) if ok and not shared else
+                            ("sibling cells share the field(s) %s: a reward recorded in one cell appears in the others" % sorted(set(shared))
+                             if shared else "the same cell object is registered more than once")))
+    return out
 
 
 def _one_config(args):
